@@ -28,23 +28,31 @@ RULE = ("scripts on the virtual clock (tick 0.25 s): 1..3 arrivals on the slots 
         "stop_timeout 2/3/5 ticks (3 only for 3 arrivals), so that the deadline falls before / exactly onto / after "
         "the end of the pending work, onto coroutine ends, into and onto the end of guard sleeps. Abort part: "
         "on_error=(probe, Event.abort()) with exactly one failing run among <=2 arrivals: the failing run itself "
-        "stops the simulation (stop() is recorded where it really happens), stop_timeout big or 3. thorough "
+        "stops the simulation (stop() is recorded where it really happens), stop_timeout big or 3. Late part: "
+        "<=2 arrivals, stop at 1/3/5 placed B/T/A, and 1..2 puts sent to the block as internal events around and "
+        "after its stop(): in the very step of stop() (S), from another block's stop_async (N), or B/T/A at 0..3 "
+        "ticks after the stop, with user coroutines whose cancellation takes 0 or 3 extra loop iterations. thorough "
         "enumerates both parts completely and adds random scripts with 4 arrivals on 10 slots, durations 1..4, mixed "
         "placements, any number of failing runs, guard 1..3 and (40 %) a stop_timeout of 1..12 ticks, (15 %) on_error=Event.abort(); quick "
-        "takes a random 3 % sample of the first two parts, 20 % of the abort part, plus 3000 random scripts. Compared with the Lean model: the complete time-stamped log of output changes, "
+        "takes a random 3 % sample of the first two parts and of the late part, 20 % of the abort part, plus 3000 "
+        "random scripts (30 % of them with late puts, 30 % with slow cancellation). Compared with the Lean model: the complete time-stamped log of output changes, "
         "coroutine start/end/cancellation and success/error/cancel events in the implementation's order (start "
         "mode: per instant as a set plus the output at the end of the instant, because equal timers fire in heap "
         "order), and the instant at which stop_async finished. distinct = hash of (lines, trace); non-trivial = at "
         "least one accepted put")
 ASSUMPTIONS = [
     "user coroutines are scripts (sleep d, then return or raise) that do not catch CancelledError",
-    "guard_time <= stop_timeout (the constructor refuses anything else); the OutputAsync block is the only block "
-    "with a stop_async, so its stop_timeout clock starts in the instant of stop()",
-    "puts are external events: after shutdown() has been called they are refused by the circuit and never reach the block",
+    "guard_time <= stop_timeout (the constructor refuses anything else); the stop_timeout clock of the OutputAsync "
+    "block starts in the instant of its stop() (the only other block with a stop_async, the notifier of the late "
+    "part, finishes at once)",
+    "ordinary puts are external events: after shutdown() has been called they are refused by the circuit and never "
+    "reach the block; the puts of the 'late' part are internal events (block.event), which the code delivers also "
+    "during the clean-up",
     "same-instant ties: the harness records whether a stimulus preceded the block's pending timer/controller step "
     "(flag `pre`, read from the fired coroutine timer, the last output decrement and the control task's awaited "
-    "object) and whether two puts were made without a loop iteration in between (flag `batch`); the model is "
-    "driven by these recorded orders",
+    "object) and whether the control task has taken anything from the queue since the previous put of the same "
+    "instant (flag `batch`, for puts and for stop(); read from a counting subclass of the block's asyncio.Queue); "
+    "the model is driven by these recorded orders",
 ]
 EXHAUSTIVE = {'quick': False, 'thorough': True}
 
@@ -118,6 +126,29 @@ def grid_abort():
                                     yield scn
 
 
+LATE_SHAPES = (
+    [[[0, 'S']], [[0, 'N']]]
+    + [[[off, place]] for place in PLACES for off in (0, 1, 2, 3)]
+    + [[[0, 'S'], [1, 'T']], [[0, 'N'], [2, 'A']], [[0, 'T'], [2, 'T']]])
+
+
+def grid_late():
+    """puts that reach the block around / after its stop() as internal events (see RULE)"""
+    arrivals = [[[slot, 'B', dur, fail]] for slot in SLOTS for dur in DURS for fail in (False, True)]
+    arrivals += [[[a, 'B', 3, False], [b, 'B', 3, False]] for a, b in itertools.combinations_with_replacement(SLOTS, 2)]
+    for puts in arrivals:
+        for stop in STOPS[:3]:
+            for sp in PLACES:
+                for shape in LATE_SHAPES:
+                    late = [[stop + off, place, 1 + 2 * (n % 2), False] for n, (off, place) in enumerate(shape)]
+                    for slow in (0, 3):
+                        for mode in MODES:
+                            for guard in (0, GUARD):
+                                for sd in (False, True):
+                                    yield {'mode': mode, 'guard': guard, 'stop_data': sd, 'puts': puts,
+                                           'stop': [stop, sp], 'late': late, 'slow_cancel': slow}
+
+
 def random_scn(rng):
     k = 4 if rng.random() < 0.8 else rng.randint(1, 6)
     puts = sorted(([rng.randrange(10), rng.choice(PLACES), rng.randint(1, 4), rng.random() < 0.2]
@@ -128,6 +159,11 @@ def random_scn(rng):
         scn['stop_timeout'] = rng.randint(max(1, scn['guard']), 12)
     if rng.random() < 0.15:
         scn['abort'] = True
+    if rng.random() < 0.3:
+        scn['late'] = [[scn['stop'][0] + rng.choice([0, 0, 1, 2, 3, 5]), rng.choice('SN' + PLACES),
+                        rng.randint(1, 4), rng.random() < 0.2] for _ in range(rng.randint(1, 3))]
+    if rng.random() < 0.3:
+        scn['slow_cancel'] = rng.randint(1, 4)
     return scn
 
 
@@ -146,6 +182,13 @@ FIXED = [
     {'mode': 'cancel', 'guard': 2, 'stop_data': True, 'stop_timeout': 4, 'puts': [[0, 'B', 3, False], [1, 'B', 3, False]], 'stop': [2, 'T']},
     {'mode': 'start', 'guard': 2, 'stop_data': True, 'stop_timeout': 6, 'puts': [[0, 'B', 3, False], [1, 'B', 3, False]], 'stop': [2, 'A']},
     {'mode': 'start', 'guard': 0, 'stop_data': True, 'stop_timeout': 2, 'puts': [[0, 'B', 3, False], [1, 'B', 3, False], [1, 'B', 1, True]], 'stop': [2, 'B']},
+    # a put that reaches the block after its stop(): from another block's stop_async while the cancelled run
+    # is still unwinding; during the guard sleep of the cancelled run; in the very step of stop(); much later
+    {'mode': 'cancel', 'guard': 0, 'stop_data': True, 'puts': [[0, 'B', 5, False]], 'stop': [1, 'A'], 'late': [[1, 'N', 1, False]], 'slow_cancel': 3},
+    {'mode': 'cancel', 'guard': 2, 'stop_data': True, 'puts': [[0, 'B', 5, False]], 'stop': [1, 'A'], 'late': [[2, 'T', 1, False]]},
+    {'mode': 'cancel', 'guard': 2, 'stop_data': False, 'puts': [[0, 'B', 5, False], [1, 'B', 3, False]], 'stop': [2, 'B'], 'late': [[2, 'S', 1, False], [3, 'A', 1, False]]},
+    {'mode': 'wait', 'guard': 0, 'stop_data': True, 'puts': [[0, 'B', 3, False], [1, 'B', 3, False]], 'stop': [2, 'T'], 'late': [[2, 'S', 1, False], [2, 'N', 1, True], [4, 'B', 1, False]]},
+    {'mode': 'start', 'guard': 2, 'stop_data': True, 'puts': [[0, 'B', 3, False]], 'stop': [1, 'A'], 'late': [[1, 'N', 1, False], [30, 'A', 1, False]]},
 ]
 
 
@@ -161,11 +204,15 @@ def scenarios(rng, tier):
         for scn in grid_abort():
             if rng.random() < 0.2:
                 yield scn
+        for scn in grid_late():
+            if rng.random() < 0.03:
+                yield scn
         nrandom = 3000
     else:
         yield from grid()
         yield from grid_timeouts()
         yield from grid_abort()
+        yield from grid_late()
         nrandom = 40000
     for _ in range(nrandom):
         yield random_scn(rng)
@@ -183,6 +230,11 @@ def shrink(scn):
         yield {k: v for k, v in scn.items() if k != 'stop_timeout'}
     if scn.get('abort'):
         yield {k: v for k, v in scn.items() if k != 'abort'}
+    late = scn.get('late') or []
+    for i in reversed(range(len(late))):
+        yield {**scn, 'late': late[:i] + late[i + 1:]}
+    if scn.get('slow_cancel'):
+        yield {**scn, 'slow_cancel': 0}
     for i, p in enumerate(puts):
         if p[3]:
             yield {**scn, 'puts': puts[:i] + [[p[0], p[1], p[2], False]] + puts[i + 1:]}
@@ -203,8 +255,8 @@ class _Run:
         self.t0 = 0
         self.loop = None
         self.last_internal = -1  # instant (µs) of the last fired coroutine timer / finished run
-        self.last_put_iter = None
         self.last_put_t = None
+        self.gets_at_last_put = None
         self.stopped = False
         self.end_us = None
 
@@ -227,6 +279,8 @@ class _Run:
         except asyncio.CancelledError:
             handle.cancel()
             self.log.append((self.now(), 'cancelled', id))
+            for _ in range(self.scn.get('slow_cancel', 0)):
+                await asyncio.sleep(0)      # a cancellation that does not finish at once
             raise
         self.log.append((self.now(), 'end', id))
         if fail:
@@ -276,11 +330,41 @@ class _Run:
         self.oa = oa
         orig_stop = oa.stop
 
+        orig_start = oa.start
+
+        class CountingQueue(asyncio.Queue):
+            """the block's queue, counting what the control task has taken out of it"""
+            gets = 0
+
+            def get_nowait(self):
+                item = super().get_nowait()
+                self.gets += 1
+                return item
+
+        def start():
+            orig_start()
+            oa._queue = CountingQueue()     # the control task has not run yet
+        oa.start = start
+
         def stop():
-            self.stim.append(('stop', self.now(), self.pre()))
+            self.stim.append(('stop', self.now(), self.pre(), self.batch()))
             self.stopped = True
             orig_stop()
+            for lid, (_slot, place, dur, fail) in self.late():
+                if place == 'S':            # in the very step that called stop()
+                    self.put(oa, lid, dur, fail, internal=True)
         oa.stop = stop
+        if any(place == 'N' for _, (_s, place, _d, _f) in self.late()):
+            class Notifier(edzed.AddonAsync, edzed.SBlock):
+                """another block whose asynchronous clean-up sends puts to the output block"""
+                def init_regular(self):
+                    self.set_output(None)
+
+                async def stop_async(self):
+                    for lid, (_slot, place, dur, fail) in run.late():
+                        if place == 'N':
+                            run.put(oa, lid, dur, fail, internal=True)
+            Notifier('notifier')
         orig_stop_async = oa.stop_async
 
         async def stop_async():
@@ -291,18 +375,30 @@ class _Run:
         oa.stop_async = stop_async
         return oa
 
-    def put(self, oa, id, dur, fail):
-        loop = self.loop
+    def late(self):
+        """[(id, [slot, place, dur, fail])] of the puts sent as internal events around / after the stop"""
+        n = len(self.scn['puts'])
+        return [(n + 1 + i, e) for i, e in enumerate(self.scn.get('late', []))]
+
+    def batch(self):
+        """1 = the control task has not taken anything from the queue since the previous put of this very
+        instant (it has not run, or it is busy with a run): the stimuli are seen together"""
+        return int(self.last_put_t == self.now() and self.gets_at_last_put == self.oa._queue.gets)
+
+    def put(self, oa, id, dur, fail, internal=False):
         t = self.now()
-        batch = int(self.last_put_iter == loop.iterations and self.last_put_t == t)
+        batch = self.batch()
         pre = self.pre()
         try:
-            edzed.ExtEvent(oa).send(id=id, dur=dur, fail=fail)
+            if internal:    # block-to-block events are delivered also during the clean-up
+                oa.event('put', id=id, dur=dur, fail=fail, source='late')
+            else:
+                edzed.ExtEvent(oa).send(id=id, dur=dur, fail=fail)
             ok = True
         except edzed.EdzedInvalidState:
             ok = False
         if ok:
-            self.last_put_iter, self.last_put_t = loop.iterations, t
+            self.last_put_t, self.gets_at_last_put = t, oa._queue.gets
         self.stim.append(('put', t, pre, batch, id, dur, fail, ok))
 
     async def drive(self, sim, oa):
@@ -311,11 +407,16 @@ class _Run:
         scn = self.scn
         stimuli = [(slot, k, place, ('put', k + 1, dur, fail)) for k, (slot, place, dur, fail) in enumerate(scn['puts'])]
         stimuli.append((scn['stop'][0], len(stimuli), scn['stop'][1], ('stop',)))
+        for lid, (slot, place, dur, fail) in self.late():
+            if place in PLACES:
+                stimuli.append((slot, len(stimuli), place, ('late', lid, dur, fail)))
         stimuli.sort(key=lambda s: (s[0], s[1]))
 
         def do(what):
             if what[0] == 'put':
                 self.put(oa, *what[1:])
+            elif what[0] == 'late':
+                self.put(oa, *what[1:], internal=True)
             else:
                 sim.circuit.abort(asyncio.CancelledError('shutdown'))
         for slot, _k, place, what in stimuli:
@@ -325,8 +426,8 @@ class _Run:
             t = self.t0 + slot * TICK
             if place == 'T':
                 continue
-            if sim.circuit.error is not None and t > loop.now_us:
-                break           # shutdown under way: later stimuli would only move the clock
+            if what[0] == 'put' and sim.circuit.error is not None and t > loop.now_us:
+                continue        # shutdown under way: a later external put would only move the clock
             if place == 'B':
                 if loop.now_us < t:
                     await vtime.advance_to(loop, t - 1)
@@ -334,9 +435,7 @@ class _Run:
             else:
                 await vtime.advance_to(loop, t)
             do(what)
-            if what[0] == 'stop':
-                break
-        else:
+        if sim.circuit.error is None:
             await vtime.advance_to(loop, self.t0 + scn['stop'][0] * TICK)
 
 
@@ -371,16 +470,19 @@ def run_impl(scn):
     sd = f'{SD_ID}:{SD_DUR * TICK}:0' if scn['stop_data'] else '-'
     lines = [f"oasync reset {mode} {scn['guard'] * TICK} {sd} {scn.get('stop_timeout', BIG_TIMEOUT) * TICK}"]
     trace = ['ok']
+    stop_seen = False
     for st in run.stim:
         if st[0] == 'put':
             _, t, pre, batch, id, dur, fail, ok = st
             if not ok:
                 continue        # refused by the circuit (shutting down): never reached the block
             lines.append(f'oasync put {t} {pre} {batch} {id} {dur * TICK} {int(fail)}')
-            trace.append('ok')
+            # a put that reaches the block after its stop() lands behind the sentinel
+            trace.append('late' if stop_seen else 'ok')
         else:
-            lines.append(f'oasync stop {st[1]} {st[2]}')
+            lines.append(f'oasync stop {st[1]} {st[2]} {st[3]}')
             trace.append('ok')
+            stop_seen = True
     out = 0
     for _t, k, a in run.log:
         if k == 'out':
@@ -451,8 +553,11 @@ def oracle(scn, res):
             bad('abort_on_error', f"on_error=Event.abort(): a run failed but the simulation ended with {res['final_error']}")
     elif res['final_error'] != 'None' and not (any(t == t_req for t in err_times) and 'RuntimeError' in res['final_error']):
         bad('simulation_runs', f"the simulation ended with {res['final_error']} instead of a normal shutdown")
-    arrivals = [(st[1], st[4], st[5], st[6]) for st in stim if st[0] == 'put' and st[7]]   # (t, id, dur, fail) in arrival order
     stops = [st for st in stim if st[0] == 'stop']
+    stop_pos = stim.index(stops[0]) if stops else len(stim)
+    # (t, id, dur, fail) in arrival order: what the block accepted before its stop() / after it ("late")
+    arrivals = [(st[1], st[4], st[5], st[6]) for st in stim[:stop_pos] if st[0] == 'put' and st[7]]
+    late_puts = {st[4]: (st[1], st[4], st[5], st[6]) for st in stim[stop_pos:] if st[0] == 'put' and st[7]}
     if len(stops) != 1:
         bad('stop_called_once', f'stop() was called {len(stops)} times')
         return out
@@ -464,6 +569,8 @@ def oracle(scn, res):
         order.append(SD_ID)
         script[SD_ID] = (t_stop, SD_ID, SD_DUR, False)
     arrival_time = {i: script[i][0] for i in order}
+    script.update(late_puts)
+    arrival_time.update({i: late_puts[i][0] for i in late_puts})
 
     # -- exactly one result per accepted put, carrying the original data and matching what its run did
     starts, ends, cancels = {}, {}, {}
@@ -479,11 +586,15 @@ def oracle(scn, res):
     for i in results:
         if i not in script:
             bad('exactly_one_result', f'result event for an unknown put id {i}: {results[i]}')
-    for i in order:
+    for i in order + list(late_puts):
         r = results.get(i, [])
+        if i in late_puts and i in starts:
+            bad('late_put_not_served', f'put {i} reached the block at {arrival_time[i]}, after its stop() at {t_stop}, '
+                f'but a run was started for it at {starts[i][0]}')
         if len(r) != 1:
-            bad('exactly_one_result', f'put {i} (arrived at {arrival_time[i]}) got {len(r)} result events: '
-                f'{[(t, k) for t, k, _ in r]}', nresults=min(len(r), 2))
+            bad('exactly_one_result', f'put {i} (arrived at {arrival_time[i]}'
+                f"{', after the stop()' if i in late_puts else ''}) got {len(r)} result events: "
+                f'{[(t, k) for t, k, _ in r]}', nresults=min(len(r), 2), late=i in late_puts)
             continue
         t, k, data = r[0]
         _, _, dur, fail = script[i]
